@@ -47,6 +47,12 @@ class WModel(torch.nn.Module):
             self.W[1, 0, :2] = 1.0
             self.W[2, 3, :] = torch.arange(L).float() % 2
             self.W = self.W.reshape(3, -1)
+        elif kind == "profile":
+            # a profile head: output (batch, 3 tracks, L - 1 positions); the mask selects tracks
+            self.convp = torch.nn.Conv1d(A, 3, 2)
+            with torch.no_grad():
+                self.convp.weight.copy_(torch.randint(-2, 3, self.convp.weight.shape, generator=g).float())
+                self.convp.bias.copy_(torch.randint(-1, 2, (3,), generator=g).float())
         elif kind == "tail":
             # only the last 30 positions matter: every improving placement lies near the end of the sequence
             self.W = torch.zeros(3, A, L)
@@ -64,6 +70,8 @@ class WModel(torch.nn.Module):
         X = X.float()
         if self.kind in ("linear", "lastG", "tail"):
             return X.flatten(1) @ self.W.T
+        if self.kind == "profile":
+            return torch.relu(self.convp(X))
         h = torch.relu(self.conv(X))
         return torch.stack([h[:, 0].sum(1), h[:, 1].sum(1), h[:, 0, -1] - h[:, 1, 0]], dim=1)
 
@@ -90,6 +98,11 @@ def shards(tier, seed):
     # more than 1024 fitting positions per motif; the model rewards the LAST positions, so the optimum lies beyond position 1024
     out.append(dict(name="L1100/tail/long", L=1100, kind="tail", mi=-1, masked=False, long=True, weight=4000))
     out.append(dict(name="L1100/linear/long", L=1100, kind="linear", mi=-1, masked=True, long=True, weight=4000))
+    # 3-D (profile) outputs, and a caller's own signed loss (the loss of a start sequence can be exactly 0 and still be improvable)
+    for mi in (0, 2, 4):
+        out.append(dict(name="L6/profile/m%d/mask" % mi, L=6, kind="profile", mi=mi, masked=True, weight=2 ** 6 * len(MOTIF_SETS[mi])))
+    for kind, mi in (("lastG", 0), ("lastG", 2), ("linear", 4)):
+        out.append(dict(name="L6/%s/m%d/signed_loss" % (kind, mi), L=6, kind=kind, mi=mi, masked=True, loss="signed", weight=2 ** 6 * len(MOTIF_SETS[mi])))
     # non-default alphabet orders (the rows of X follow the alphabet handed to the call; motifs are strings)
     for alph, kind, mi in (("ACTG", "lastG", 0), ("TGCA", "linear", 2), ("GATC", "linear", 4), ("ACTG", "linear", 1)):
         out.append(dict(name="L6/%s/m%d/alphabet_%s" % (kind, mi, alph), L=6, kind=kind, mi=mi, masked=False, alph=alph,
@@ -97,8 +110,15 @@ def shards(tier, seed):
     return out
 
 
-def _loss(y, yhat, mask):
-    return ((y[:, mask] - yhat[:, mask]) ** 2).mean(dim=1)
+LOSSES = {
+    "mse": None,                                              # the library default
+    "signed": lambda y, y_hat: -(y * y_hat),                  # a caller's own element-wise loss that is not bounded below by 0
+}
+
+
+def _loss(y, yhat, mask, kind="mse"):
+    d = (y[:, mask] - yhat[:, mask]) ** 2 if kind == "mse" else LOSSES[kind](y[:, mask].expand_as(yhat[:, mask]), yhat[:, mask])
+    return d.reshape(d.shape[0], -1).mean(dim=1)
 
 
 def _starts(L):
@@ -119,6 +139,10 @@ def run_shard(sh, tier, seed):
     mask = torch.tensor([True, False, True]) if sh["masked"] else None
     m_ = mask if mask is not None else torch.ones(3, dtype=torch.bool)
     y = torch.tensor([[3.0, 1.0, 2.0]])
+    if kind == "profile":
+        y = (torch.arange(3 * (L - 1)).reshape(1, 3, L - 1) % 3).float()
+    lk = sh.get("loss", "mse")
+    lkw = {} if lk == "mse" else dict(loss=LOSSES[lk])
     toolong = any(len(m) > L for m in motifs)
 
     def f(codes_list):
@@ -126,7 +150,7 @@ def run_shard(sh, tier, seed):
             return model(ohe(numpy.array(codes_list), A))
 
     def loss_of(codes):
-        return float(_loss(y, f([codes]), m_)[0])
+        return float(_loss(y, f([codes]), m_, lk)[0])
 
     def candidates(codes):
         out = []
@@ -141,6 +165,7 @@ def run_shard(sh, tier, seed):
         Xc = X.clone()
         args = dict(max_iter=1, tol=0)
         args.update(akw)
+        args.update(lkw)
         args.update(kw)
         st, val = call(greedy_substitution, model, X, motifs, y, mask=mask, device="cpu", **args)
         if st == "ok" and not torch.equal(X, Xc):
@@ -167,7 +192,7 @@ def run_shard(sh, tier, seed):
         s = frontier.popleft()
         cur = loss_of(s)
         cands = candidates(s)
-        losses = _loss(y, f([c[2] for c in cands]), m_).tolist() if cands else []
+        losses = _loss(y, f([c[2] for c in cands]), m_, lk).tolist() if cands else []
         best = min(losses) if losses else None
         improving = best is not None and best < cur
         bs = (1, 3, 32)[len(seen) % 3]
@@ -175,7 +200,7 @@ def run_shard(sh, tier, seed):
         rec.count("transitions")
         rec.case(1, int(improving))
         case = dict(fn="greedy_substitution", L=L, model=kind, motifs=motifs, masked=sh["masked"], seq="".join(ALPH[c] for c in s),
-                    max_iter=1, tol=0, batch_size=bs, seed=seed, alphabet=ALPH)
+                    max_iter=1, tol=0, batch_size=bs, seed=seed, alphabet=ALPH, loss=lk)
         best_cands = [c for c, l in zip(cands, losses) if l == best] if improving else []
         is_last = improving and all(p == L - len(motifs[mi]) for (mi, p, _) in best_cands)
         n_last += int(is_last)
@@ -215,7 +240,7 @@ def run_shard(sh, tier, seed):
         if step_of.get(s) is None:
             continue
         for max_iter in (0, 1, 2, 3, -1):
-            for tol in (0, 0.5, 1, 1000.0):
+            for tol in ((0, 0.5, 1, 1000.0) if kind != "profile" else (0, 0.05, 0.125, 0.25, 0.5, 1)):
                 exp = s
                 it = 0
                 while True:
@@ -238,7 +263,7 @@ def run_shard(sh, tier, seed):
                 rec.count("traces_validated_against_impl")
                 if st != "ok" or got != exp:
                     rec.violation("greedy:multistep_differs", dict(fn="greedy_substitution", L=L, model=kind, motifs=motifs,
-                                  masked=sh["masked"], seq="".join(ALPH[c] for c in s), max_iter=max_iter, tol=tol, seed=seed, alphabet=ALPH),
+                                  masked=sh["masked"], seq="".join(ALPH[c] for c in s), max_iter=max_iter, tol=tol, seed=seed, alphabet=ALPH, loss=lk),
                                   expected="".join(ALPH[c] for c in exp), observed="".join(ALPH[c] for c in got) if st == "ok" else got)
                 elif loss_of(got) > loss_of(s):
                     rec.violation("greedy:final_loss_higher", dict(seq=s, max_iter=max_iter, tol=tol))
@@ -256,9 +281,12 @@ def replay(v):
     mask = torch.tensor([True, False, True]) if c["masked"] else None
     y = torch.tensor([[3.0, 1.0, 2.0]])
     ALPH = c.get("alphabet", "ACGT")
+    if c["model"] == "profile":
+        y = (torch.arange(3 * (L - 1)).reshape(1, 3, L - 1) % 3).float()
     X = ohe(numpy.array([[ALPH.index(ch) for ch in c["seq"]]]), A)
     st, val = call(greedy_substitution, model, X, c["motifs"], y, mask=mask, device="cpu", max_iter=c["max_iter"], tol=c["tol"],
-                   batch_size=c.get("batch_size", 32), **({} if ALPH == "ACGT" else dict(alphabet=list(ALPH))))
+                   batch_size=c.get("batch_size", 32), **({} if ALPH == "ACGT" else dict(alphabet=list(ALPH))),
+                   **({} if c.get("loss", "mse") == "mse" else dict(loss=LOSSES[c["loss"]])))
     if st != "ok":
         return False, "greedy_substitution raised: %s" % val
     got = "".join(ALPH[k] for k in decode(val)[0][0])
